@@ -3,6 +3,12 @@
 import json
 PROPS = [json.loads(l) for l in open('/verif/properties.jsonl')]
 CLAIMED = {
+ "C02": dict(
+    category="proof",
+    text="Coq theorems: C02_order (the kept tables are exactly the parent's surviving tables in the parent's order - the transcription has lists where the pinned code had sets), C02_renumber (a surviving axis is renumbered to its rank among surviving axes), C02_values with C02_box_order (element k of a sliced table of any dimensionality is the parent's entry at the source element of k, via row-major index arithmetic). Tied to /repo by a correspondence check over chains of 1-3 slices (tables, axes, names, mapping, per-component values), an element-wise direct oracle through extra_coords.wcs and the mapping, and order probes in fresh interpreter processes with different hash seeds and heap layouts.",
+    design_ref="DESIGN.md §5.2",
+    note="Trusted: Coq kernel + VM; Model/M_ExtraCoords.v transcription; Quantity / Time / SkyCoord slicing are numpy-selection dependencies; run-to-run order is a runtime fact observed by repetition (5 fresh processes per probe), the theorem only covers the list-based transcription. Meshed / 2-D SkyCoord tables and WCS-backed ExtraCoords are not generated (partial).",
+    technique="Coq proof over hand-written Gallina model + vm_compute correspondence check + fresh-process order probes"),
  "C16": dict(
     category="proof",
     text="Coq theorems (squared domain): C16_sum_mean proves that the code's pairwise iteration seeded with the first block member equals the root-sum-square of the contributing members (divided by their number for means) for blocks of any length, any mask pattern incl. a masked first member, NaNs anywhere; C16_prod proves by an invariant (s2 = P^2 sum (s_k/x_k)^2, a = P) that the multiply-rule iteration gives the relative-error combination for unmasked products; C16_flat (shared with C08) describes what a propagation function receives. Tied to /repo by exact rational comparison of every output variance (StdDev / Variance), the no-uncertainty decision table with warnings, a spy propagation function, a source-not-altered check and a closed-form oracle. Masked products are a recorded known finding (outside the theorem guard).",
